@@ -1,6 +1,7 @@
 package main
 
 import (
+	"runtime"
 	"bufio"
 	"crypto/sha256"
 	"encoding/hex"
@@ -366,7 +367,22 @@ func runLeg(name, tier string, seed uint64, modelBin, outDir, knownPath string) 
 	c.res.Leg = name
 	c.res.Histogram = map[string]int{}
 	t0 := time.Now()
-	e.f(c)
+	func() {
+		// a run-time fault inside a leg is almost always the ENGINE faulting in a call the leg did not guard:
+		// it is reported as a violation with its stack, not as a crash of the whole harness
+		defer func() {
+			if p := recover(); p != nil {
+				buf := make([]byte, 1<<16)
+				buf = buf[:runtime.Stack(buf, false)]
+				st := string(buf)
+				if len(st) > 3000 {
+					st = st[:3000]
+				}
+				c.Add(&Case{Desc: "leg " + name + " stopped by a run-time panic", Direct: fmt.Sprintf("panic: %v\n%s", p, st), Class: "panic"})
+			}
+		}()
+		e.f(c)
+	}()
 	c.Flush()
 	c.res.WallS = time.Since(t0).Seconds()
 	if c.res.Samples == nil {
